@@ -104,7 +104,7 @@ Proof. intros H. destruct vs as [|x [|y t]]; simpl; try discriminate. apply H. Q
 Lemma fuzzy_colf c ins vs q : fuzzy_cmd c = true -> colf c ins vs = Some q -> in_fz q.
 Proof.
   destruct c; intros Hc; try discriminate Hc; clear Hc; unfold colf.
-  - destruct (ctf_thresholds t f d (vals_of ins)) as [[tv fv]|]; [|discriminate]. apply u1_in. intros x q0. apply ofz_in.
+  - destruct (ctf_thresholds t f d (vals_of ins)) as [[tv fv]|]; apply u1_in; intros x q0; [apply ofz_in|]. intros H; inversion H; subst. unfold in_fz. lra.
   - apply u1_in. intros x q0. apply ofz_in.
   - apply u1_in. intros x q0 H. inversion H; subst. apply fz_range.
   - apply u1_in. intros x q0. apply ofz_in.
@@ -213,7 +213,7 @@ Proof.
   - apply interp_some, mtm_pts_nonempty. assumption.
   - apply interp_some, cz_pts_nonempty. assumption.
   - (* CvtToFuzzy *) destruct d; try discriminate;
-    (destruct (ctf_thresholds _ _ _ _) as [[tv fv]|]; [|discriminate]; cbn [u1]; apply ofz_some, lin_some;
+    (destruct (ctf_thresholds _ _ _ _) as [[tv fv]|]; [|cbn [u1]; discriminate]; cbn [u1]; apply ofz_some, lin_some;
      match goal with H : (if Qeq_bool ?a ?b then _ else _) = None |- _ => destruct (Qeq_bool a b) eqn:E; [discriminate|] end;
      destruct (Qeq_bool (fv - tv) 0) eqn:E2; [|reflexivity]; apply Qeq_bool_eq in E2; apply Qeq_bool_neq in E; exfalso; apply E; lra).
   - apply ofz_some, interp_some, curve_checks_pts. assumption.
